@@ -149,16 +149,16 @@ package types
 
 // ---- modes (C10: every mode is one of the four, uniform up to shifts, shifts legal; C06: shift direction)
 
-//@ macro optionsModesOK(bs []Option, D Set[string], V Arr[string]LabelledType, cur Modality) bool = forall k int :: 0 <= k && k < len(bs) ==> modesOK(bs[k].SessionType, D, V, cur)
-//@ spec modesOK(t SessionType, D Set[string], V Arr[string]LabelledType, cur Modality) bool =
-//@    (is(t, LabelType) ==> base(LabelType(t).Mode) && D[LabelType(t).Label] && tag(LabelType(t).Mode) == tag(cur) && tag(LabelType(t).Mode) == tag(V[LabelType(t).Label].Mode)) &&
-//@    (is(t, UnitType) ==> base(UnitType(t).Mode) && tag(UnitType(t).Mode) == tag(cur)) &&
-//@    (is(t, SendType) ==> base(SendType(t).Mode) && tag(SendType(t).Mode) == tag(cur) && modesOK(SendType(t).Left, D, V, cur) && modesOK(SendType(t).Right, D, V, cur)) &&
-//@    (is(t, ReceiveType) ==> base(ReceiveType(t).Mode) && tag(ReceiveType(t).Mode) == tag(cur) && modesOK(ReceiveType(t).Left, D, V, cur) && modesOK(ReceiveType(t).Right, D, V, cur)) &&
-//@    (is(t, SelectLabelType) ==> base(SelectLabelType(t).Mode) && tag(SelectLabelType(t).Mode) == tag(cur) && optionsModesOK(SelectLabelType(t).Branches, D, V, cur)) &&
-//@    (is(t, BranchCaseType) ==> base(BranchCaseType(t).Mode) && tag(BranchCaseType(t).Mode) == tag(cur) && optionsModesOK(BranchCaseType(t).Branches, D, V, cur)) &&
-//@    (is(t, UpType) ==> base(UpType(t).From) && base(UpType(t).To) && tag(UpType(t).To) == tag(cur) && ge(UpType(t).To, UpType(t).From) && modesOK(UpType(t).Continuation, D, V, UpType(t).From)) &&
-//@    (is(t, DownType) ==> base(DownType(t).From) && base(DownType(t).To) && tag(DownType(t).To) == tag(cur) && ge(DownType(t).From, DownType(t).To) && modesOK(DownType(t).Continuation, D, V, DownType(t).From))
+//@ macro optionsModesOK(bs []Option, D Set[string], V Arr[string]LabelledType, cur int) bool = forall k int :: 0 <= k && k < len(bs) ==> modesOK(bs[k].SessionType, D, V, cur)
+//@ spec modesOK(t SessionType, D Set[string], V Arr[string]LabelledType, cur int) bool =
+//@    (is(t, LabelType) ==> base(LabelType(t).Mode) && D[LabelType(t).Label] && tag(LabelType(t).Mode) == cur && tag(LabelType(t).Mode) == tag(V[LabelType(t).Label].Mode)) &&
+//@    (is(t, UnitType) ==> base(UnitType(t).Mode) && tag(UnitType(t).Mode) == cur) &&
+//@    (is(t, SendType) ==> base(SendType(t).Mode) && tag(SendType(t).Mode) == cur && modesOK(SendType(t).Left, D, V, cur) && modesOK(SendType(t).Right, D, V, cur)) &&
+//@    (is(t, ReceiveType) ==> base(ReceiveType(t).Mode) && tag(ReceiveType(t).Mode) == cur && modesOK(ReceiveType(t).Left, D, V, cur) && modesOK(ReceiveType(t).Right, D, V, cur)) &&
+//@    (is(t, SelectLabelType) ==> base(SelectLabelType(t).Mode) && tag(SelectLabelType(t).Mode) == cur && optionsModesOK(SelectLabelType(t).Branches, D, V, cur)) &&
+//@    (is(t, BranchCaseType) ==> base(BranchCaseType(t).Mode) && tag(BranchCaseType(t).Mode) == cur && optionsModesOK(BranchCaseType(t).Branches, D, V, cur)) &&
+//@    (is(t, UpType) ==> base(UpType(t).From) && base(UpType(t).To) && tag(UpType(t).To) == cur && ge(UpType(t).To, UpType(t).From) && modesOK(UpType(t).Continuation, D, V, tag(UpType(t).From))) &&
+//@    (is(t, DownType) ==> base(DownType(t).From) && base(DownType(t).To) && tag(DownType(t).To) == cur && ge(DownType(t).From, DownType(t).To) && modesOK(DownType(t).Continuation, D, V, tag(DownType(t).From)))
 
 // Environment entries carry a type and a mode (what the parser and SetModalityTypeDef produce).
 //@ macro envEntriesOK(D Set[string], V Arr[string]LabelledType) bool = forall n string :: D[n] ==> V[n].Type != nil && V[n].Mode != nil
@@ -167,16 +167,16 @@ package types
 //@   requires[C09] shapeOK(self)
 //@   requires[C09] cur != nil || modeOf(self) == nil
 //@   requires[C09] envEntriesOK(dom(env), vals(env))
-//@   ensures C10.modes: (result == nil) == modesOK(self, dom(env), vals(env), cur)
+//@   ensures C10.modes: (result == nil) == modesOK(self, dom(env), vals(env), tag(cur))
 //@   decreases[C09] size(self)
 //@   safety C09
 
 //@ contract (*SelectLabelType).checkTypeModalities
-//@   loop 1 invariant (forall k int :: 0 <= k && k <= idx ==> modesOK(q.Branches[k].SessionType, dom(labelledTypesEnv), vals(labelledTypesEnv), currentMode))
+//@   loop 1 invariant (forall k int :: 0 <= k && k <= idx ==> modesOK(q.Branches[k].SessionType, dom(labelledTypesEnv), vals(labelledTypesEnv), tag(currentMode)))
 //@ contract (*BranchCaseType).checkTypeModalities
-//@   loop 1 invariant (forall k int :: 0 <= k && k <= idx ==> modesOK(q.Branches[k].SessionType, dom(labelledTypesEnv), vals(labelledTypesEnv), currentMode))
+//@   loop 1 invariant (forall k int :: 0 <= k && k <= idx ==> modesOK(q.Branches[k].SessionType, dom(labelledTypesEnv), vals(labelledTypesEnv), tag(currentMode)))
 
-//@ macro wfTy(t SessionType, D Set[string], V Arr[string]LabelledType) bool = labelsOK(t, D) && modesOK(t, D, V, modeOf(t))
+//@ macro wfTy(t SessionType, D Set[string], V Arr[string]LabelledType) bool = labelsOK(t, D) && modesOK(t, D, V, tag(modeOf(t)))
 
 //@ contract CheckTypeWellFormedness
 //@   requires[C09] shapeOK(t)
